@@ -1,7 +1,7 @@
 (* Dispatchers for walk / glob / file-object models. *)
 From Coq Require Import List NArith ZArith Bool Arith String.
 From PyFS Require Import Base.PyStr Base.Outcome Base.Render Path.PathModel Path.PathSpec FS.Tree FS.Ops
-     FS.Agree Glob.ShellSpec Walk.WalkModel Walk.WalkOpts IO.MemFile Route.Route.
+     FS.Agree Glob.ShellSpec Walk.WalkModel Walk.WalkOpts IO.MemFile Route.Route IO.CopyData IO.MakeStream Sandbox.Sandbox.
 Import ListNotations.
 Local Open Scope string_scope. Local Open Scope list_scope.
 
@@ -151,4 +151,23 @@ Definition run_route (name : str) (a : list str) : str :=
     r_list r_nat (map snd (build_mounts a 0 []))
   else if str_eqb name (lit "order") then
     r_list r_nat (map m_id (iterate_fs (build_members a 0)))
+  else lit "?unknown".
+
+(* copy_file_data: <data> <kind 0 default / 1 negative / 2 explicit> <n> <oracle lengths as code points> *)
+Definition run_data (name : str) (a : list str) : str :=
+  if str_eqb name (lit "copy") then
+    let c := match arg_nat 1 a with 0 => CDefault | 1 => CNeg | _ => CNat (arg_nat 2 a) end in
+    r_list r_str (copy_file_data (arg 0 a) c (map N.to_nat (arg 3 a)))
+  else if str_eqb name (lit "stream") then
+    (* mode, buffering sign (0: -1, 1: 0, 2: positive) *)
+    let b := match arg_nat 1 a with 0 => (-1)%Z | 1 => 0%Z | _ => 4096%Z end in
+    let s := make_stream (arg 0 a) b in
+    (match s_buffer s with NoBuffer => lit "raw" | BufferedRandom => lit "BufferedRandom"
+                         | BufferedReader => lit "BufferedReader" | BufferedWriter => lit "BufferedWriter" end)
+      ++ lit "/" ++ r_bool (s_text s)
+  else lit "?unknown".
+
+Definition run_sandbox (name : str) (a : list str) : str :=
+  if str_eqb name (lit "syspath") then r_outcome (r_list r_str) (osfs_syspath [] (arg 0 a))
+  else if str_eqb name (lit "subfs") then r_outcome r_str (subfs_delegate (arg 0 a) (arg 1 a))
   else lit "?unknown".
